@@ -26,7 +26,12 @@ impl Matcher {
     pub fn matches(&self, key: &str) -> bool {
         match self {
             Matcher::Prefix(prefix) => key.starts_with(prefix),
-            Matcher::Suffix(suffix) => key.ends_with(suffix),
+            Matcher::Suffix(suffix) => {
+                // A sanitized suffix keeps characters that are only valid past the first position of
+                // a name (digits), so when it spans the whole key, compare its fully sanitized form.
+                key.ends_with(suffix)
+                    || (key.len() == suffix.len() && key == sanitize_metric_name(suffix))
+            }
             Matcher::Full(full) => key == full,
         }
     }
@@ -35,7 +40,12 @@ impl Matcher {
     pub(crate) fn sanitized(self) -> Matcher {
         match self {
             Matcher::Prefix(prefix) => Matcher::Prefix(sanitize_metric_name(prefix.as_str())),
-            Matcher::Suffix(suffix) => Matcher::Suffix(sanitize_metric_name(suffix.as_str())),
+            Matcher::Suffix(suffix) => {
+                // A suffix is matched against the tail of a sanitized name, where the rule for the
+                // first character of a name does not apply: sanitize it as the tail of a name.
+                let sanitized = sanitize_metric_name(&format!("_{suffix}"));
+                Matcher::Suffix(sanitized[1..].to_owned())
+            }
             Matcher::Full(full) => Matcher::Full(sanitize_metric_name(full.as_str())),
         }
     }
